@@ -35,19 +35,20 @@ def kname(d):
 def lift_pair(case):
     """the two real operands of a case (constructor forms picked by case['ls']).
     With case['hist'] one operand reaches its pose through a history: it is built
-    translated by -v, optionally *used* there (hashed, compared, queried, measured),
-    then moved by v; the moved receiver or the returned object becomes the operand."""
+    translated by -v, optionally *used* there (hashed, compared, queried against the
+    other operand, measured, negated, deep-copied), then moved by v; the moved
+    receiver or the returned object becomes the operand."""
     r = random.Random(case.get("ls", 0))
     h = case.get("hist")
     if not h:
         return lift(case["a"], r), lift(case["b"], r)
-    out = []
-    for idx, d in enumerate((case["a"], case["b"])):
-        out.append(lift_via_history(d, h, r) if idx == h["who"] else lift(d, r))
-    return out[0], out[1]
+    ds = (case["a"], case["b"])
+    other = lift(ds[1 - h["who"]], r)
+    mine = lift_via_history(ds[h["who"]], h, r, partner=other)
+    return (mine, other) if h["who"] == 0 else (other, mine)
 
 
-HIST_STATS = {"built": 0, "touched": 0, "fallback": 0}
+HIST_STATS = {"built": 0, "touched": 0, "fallback": 0, "siblings": 0, "via_negation": 0}
 
 
 def maybe_hist(case, rng, p=0.1, nops=2):
@@ -56,14 +57,20 @@ def maybe_hist(case, rng, p=0.1, nops=2):
         return case
     who = rng.randrange(nops)
     d = case["abc"[who]] if "abc"[who] in case else case["a"]
+    case["hist"] = make_hist(rng, d, who)
+    return case
+
+
+def make_hist(rng, d, who=0):
     v = tuple(gen.F(rng.randint(-8, 8), rng.choice((1, 2, 4))) for _ in range(3))
     own = _own_vectors(d)
     if own and rng.random() < 0.35:
         v = K.mul(rng.choice(own), rng.choice((1, -1, 2, gen.F(1, 2))))
     if v == (0, 0, 0):
         v = (gen.F(1), gen.F(0), gen.F(0))
-    case["hist"] = {"who": who, "v": v, "use": rng.choice(("receiver", "receiver", "returned")), "touch": rng.random() < 0.75}
-    return case
+    return {"who": who, "v": v, "use": rng.choice(("receiver", "receiver", "returned")), "touch": rng.random() < 0.75,
+            "sib": rng.choice((None, None, "neg", "copy")), "neg": rng.random() < 0.25,
+            "w": tuple(gen.F(rng.randint(-4, 4), 2) for _ in range(3))}
 
 
 def _own_vectors(d):
@@ -84,9 +91,10 @@ def _own_vectors(d):
     return []
 
 
-def touch(o, d):
+def touch(o, d, partner=None):
     """use an object the way a program would before moving it: hash, ==, repr, membership,
-    an intersection, measures - so that anything the library caches lazily gets cached"""
+    intersections, distance / angle against the partner, measures - so that anything the
+    library caches lazily gets cached"""
     G = load()
     k = d[0]
     HIST_STATS["touched"] += 1
@@ -107,6 +115,13 @@ def touch(o, d):
             G.intersection(G.Segment(G.Point(*[float(c) for c in feats[-1]]), G.Vector(0.5, -1.0, 2.0)), o)
         except Exception:
             pass
+    if partner is not None:
+        for fn in (G.intersection, G.distance, G.angle, G.parallel, G.orthogonal):
+            for x, y in ((o, partner), (partner, o)):
+                try:
+                    fn(x, y)
+                except Exception:
+                    pass
     for name in ("length", "area", "volume"):
         if k in ("S", "PG", "PH") and hasattr(o, name):
             try:
@@ -115,7 +130,8 @@ def touch(o, d):
                 pass
 
 
-def lift_via_history(d, h, r):
+def lift_via_history(d, h, r, partner=None):
+    import copy as _copy
     from ..desc import translate
     G = load()
     v = h["v"]
@@ -124,10 +140,28 @@ def lift_via_history(d, h, r):
         HIST_STATS["fallback"] += 1
         return lift(d, r)
     o = lift(d0, r)
+    k = d[0]
+    if h.get("neg") and k in ("PG", "PL"):
+        # the same set obtained by negating twice / once: a derived object with its own internal wiring
+        HIST_STATS["via_negation"] += 1
+        o = -o if k == "PL" else -(-o)
     HIST_STATS["built"] += 1
     if h.get("touch"):
-        touch(o, d0)
+        touch(o, d0, partner)
+    sib = None
+    if h.get("sib") == "neg" and k == "PG":
+        # (not for Plane: -plane shares its point with the plane by design, like Plane(p, n) shares p with its caller)
+        sib = -o
+    elif h.get("sib") == "copy":
+        sib = _copy.deepcopy(o)
     ret = o.move(G.Vector(*[float(c) for c in v]))
+    if sib is not None and hasattr(sib, "move"):
+        # a sibling derived before the move goes its own way afterwards: the operand must not follow it
+        HIST_STATS["siblings"] += 1
+        try:
+            sib.move(G.Vector(*[float(c) for c in h.get("w", (1, 0, 0))]))
+        except Exception:
+            pass
     return o if h["use"] == "receiver" else ret
 
 
